@@ -245,7 +245,7 @@ def run(ctx):
     r = vlib.rng(ctx.seed, "C01")
 
     # ---- programs --------------------------------------------------------------------------
-    n_gen = 100 if ctx.quick else 2000
+    n_gen = 80 if ctx.quick else 2000
     progs = load_corpus()
     n_corpus = len(progs)
     for i in range(n_gen):
@@ -365,7 +365,7 @@ def run(ctx):
                                     "replay": "compile `program` with /repo (see props/C01/impl_lower.py) and compare DataflowBlock rows"})
 
     # ---- sort_vars directly --------------------------------------------------------------------
-    n_sort = 400 if ctx.quick else 4000
+    n_sort = 300 if ctx.quick else 4000
     rows, perms = sort_rows(vlib.rng(ctx.seed, "C01/sort"), n_sort)
     sort_bad = 0
     try:
